@@ -17,7 +17,7 @@ import shutil
 
 import vlib
 
-PROPS = ['Rangers.Props.C17', 'Rangers.Props.C17B', 'Rangers.Props.C17C', 'Rangers.Props.C17D', 'Rangers.Props.C17E']
+PROPS = ['Rangers.Props.C17', 'Rangers.Props.C17B', 'Rangers.Props.C17C', 'Rangers.Props.C17D', 'Rangers.Props.C17E', 'Rangers.Props.C17F']
 DRIVERS = ['C17']
 META = dict(
     level='proof',
